@@ -244,6 +244,7 @@ class TrC:
         self.msg_only = set()
         self.selfname = None
         self.instname = None
+        self.bound_somewhere = set()
 
     # ------------------------------------------------------------------ plumbing
     def fresh(self, base="t"):
@@ -327,7 +328,11 @@ class TrC:
 
     # ------------------------------------------------------------------ names of the module
     def is_local(self, name):
-        return name in self.env
+        if name in self.env:
+            return True
+        if name in self.bound_somewhere:
+            raise Unsupported("local %s may be read before it is assigned" % name)
+        return False
 
     def module_shadows(self, name):
         """is `name` bound at module level of the translated module (def / class / assignment / import)?"""
@@ -362,7 +367,7 @@ class TrC:
     def val(self, e, mode="read"):
         """-> (binds, atom : cobj)"""
         if isinstance(e, ast.Name):
-            if e.id in self.env:
+            if self.is_local(e.id):
                 return [], self.local(e.id, mode)
             c = self.class_value(e.id)
             if c is not None:
@@ -549,7 +554,7 @@ class TrC:
     def call(self, e, mode="read"):
         f = e.func
         if isinstance(f, ast.Name):
-            if f.id in self.env:
+            if self.is_local(f.id):
                 # a local that holds a class: cls() / cls(x)
                 if e.keywords:
                     raise Unsupported("keyword arguments of a dynamic call")
@@ -644,7 +649,7 @@ class TrC:
                 out += self.class_list(x)
             return out
         if isinstance(e, ast.Name):
-            if e.id in self.env:
+            if self.is_local(e.id):
                 return [self.local(e.id, "read")]
             c = self.class_value(e.id)
             if c is not None:
@@ -692,7 +697,7 @@ class TrC:
             b2, a2 = self.val(r)
             return self.seq_pure(b1 + b2, "co_cmp %s %s %s" % (fn, a1, a2))
         if isinstance(e, ast.Call) and isinstance(e.func, ast.Name) and e.func.id == "isinstance" \
-                and "isinstance" not in self.env and not self.module_shadows("isinstance") \
+                and not self.is_local("isinstance") and not self.module_shadows("isinstance") \
                 and len(e.args) == 2 and not e.keywords:
             b, a = self.val(e.args[0])
             ks = self.class_list(e.args[1])
@@ -705,7 +710,7 @@ class TrC:
         x = r.exc
         if isinstance(x, ast.Call):
             x = x.func
-        if isinstance(x, ast.Name) and x.id in EXN and x.id not in self.env and not self.module_shadows(x.id):
+        if isinstance(x, ast.Name) and x.id in EXN and not self.is_local(x.id) and not self.module_shadows(x.id):
             return x.id
         raise Unsupported("raise of %s" % ast.dump(r)[:60])
 
@@ -1054,7 +1059,7 @@ class TrC:
         saved = self.snapshot()
         try:
             # setattr(o, "name", v)
-            if isinstance(f, ast.Name) and f.id == "setattr" and "setattr" not in self.env \
+            if isinstance(f, ast.Name) and f.id == "setattr" and not self.is_local("setattr") \
                     and not self.module_shadows("setattr") and len(e.args) == 3 and not e.keywords:
                 tgt = e.args[0]
                 b0, o = self.val(tgt)
@@ -1143,7 +1148,7 @@ class TrC:
                 classes = []
                 ty = h.type
                 for x in (ty.elts if isinstance(ty, ast.Tuple) else [ty]):
-                    if isinstance(x, ast.Name) and x.id in EXN and x.id not in self.env and not self.module_shadows(x.id):
+                    if isinstance(x, ast.Name) and x.id in EXN and not self.is_local(x.id) and not self.module_shadows(x.id):
                         classes.append(x.id)
                     else:
                         raise Unsupported("except %s" % ast.unparse(ty))
@@ -1210,7 +1215,7 @@ class TrC:
 
     def iter_of(self, e):
         """-> (binds, coq term of the list of elements, 'single' | 'pair')"""
-        if isinstance(e, ast.Call) and isinstance(e.func, ast.Name) and e.func.id not in self.env \
+        if isinstance(e, ast.Call) and isinstance(e.func, ast.Name) and not self.is_local(e.func.id) \
                 and not self.module_shadows(e.func.id) and not e.keywords:
             if e.func.id == "enumerate" and len(e.args) == 1:
                 b, a = self.val(e.args[0])
@@ -1412,6 +1417,7 @@ class TrC:
         for p, _ in params:
             self.env[p] = Var("p_" + p)
         self.env["$nm"] = Var("nm")
+        self.bound_somewhere = set(self.assigned_names(node.body)) | {p for p, _ in params}
         self.msg_only = self.find_msg_only()
         body = self.block(node.body, self.end_of_body, None)
         sig = " ".join("(p_%s : cobj)" % p for p, _ in params)
